@@ -1,11 +1,14 @@
 // C16 conformance harness: one group of source ranges (see c16_range.hpp).  Drives and records only.
 #include "c16_range.hpp"
 
-namespace c16
+
+// entry point of part "vector" (see c16_main.cpp)
+extern "C" void c16_part_vector(unsigned long long const seed, int const thorough_flag)
 {
-void run_vector(Sel &sel, bool const thorough)
-{
+  using namespace c16;
+  bool const thorough = thorough_flag != 0;
+  (void)thorough;
+  Sel sel(seed, thorough);
   seq_source<std::vector<int>>("vector", 6, thorough ? 6U : 4U, true, sel);
   index_source<std::vector<int>>("vector", 6);
-}
 }
